@@ -56,7 +56,7 @@ int main(int argc, char** argv) {
     std::string payload_path, uri_out, cipher_out, filename_hex, variant = "honest", relay;
     std::vector<std::string> hints, fallbacks;
     long ttl = 600, bits = 0, seconds_alive = 60, port = 0, identity_seed = 0, rseed = 1;
-    std::string peer_hex;
+    std::string peer_hex, chunk_id_of;
     bool expired = false, has_filename = false;
     for (int i = 2; i < argc; ++i) {
         const std::string a = argv[i];
@@ -77,6 +77,7 @@ int main(int argc, char** argv) {
         else if (a == "--peer-id") peer_hex = next();
         else if (a == "--identity-seed") identity_seed = std::stol(next());
         else if (a == "--seed") rseed = std::stol(next());
+        else if (a == "--chunk-id-of") chunk_id_of = next();
     }
     if (cmd == "peer") {
         signal(SIGPIPE, SIG_IGN);
@@ -168,6 +169,8 @@ int main(int argc, char** argv) {
         const auto digest = ref::sha256(payload);
         m.chunk_id = digest;
         m.chunk_hash = digest;
+        // a caller-chosen chunk id (Node::store_chunk takes any id), here the hash of other bytes, e.g. of an older version
+        if (!chunk_id_of.empty()) m.chunk_id = ref::sha256(slurp(chunk_id_of));
         const auto key = crypto::CryptoManager::generate_key();
         const auto sealed = crypto::CryptoManager::encrypt_with_key(key, m.chunk_id, payload);
         m.nonce = sealed.nonce;
